@@ -88,7 +88,7 @@ struct DiskEngine : Engine {
         int nread = (int)cfg.range(1, 3);
         for (int i = 0; i < nread; ++i) {
             KV k; k.set("how", (int64_t)cfg.below(3)).set("open", cfg.chance(0.5) ? "fp" : "name").set("raw", cfg.chance(0.4) ? 1 : 0).set("filter", cfg.chance(0.45) ? (int64_t)cfg.below(NFILTERS) : 0)
-             .set("fvia", (int64_t)cfg.below(3)).set("maxpk", cfg.chance(0.2) ? (int64_t)cfg.range(1, 10) : 0).set("stopat", cfg.chance(0.15) ? (int64_t)cfg.range(1, 10) : 0).set("throwat", cfg.chance(0.2) ? (int64_t)cfg.range(1, 8) : 0).set("throwkind", (int64_t)cfg.below(2));
+             .set("fvia", (int64_t)cfg.below(3)).set("maxpk", cfg.chance(0.2) ? (int64_t)cfg.range(1, 10) : 0).set("stopat", cfg.chance(0.15) ? (int64_t)cfg.range(1, 10) : 0).set("throwat", cfg.chance(0.2) ? (int64_t)cfg.range(1, 8) : 0).set("throwkind", (int64_t)cfg.below(2)).set("cont", cfg.chance(0.5) ? 1 : 0);
             p.steps.push_back("read " + k.line());
         }
         return p;
@@ -200,7 +200,7 @@ struct DiskEngine : Engine {
             }
             if (skipped_unparsed) st.inc("probe.malformed_frame_skipped", skipped_unparsed); if (skipped_filter) st.inc("probe.frame_filtered_out", skipped_filter);
             // ---- SUT
-            std::vector<Got> got; std::string exc; bool opened = false; int loop_calls = 0;
+            std::vector<Got> got; std::string exc; bool opened = false; int loop_calls = 0; bool continued = false;
             try {
                 std::unique_ptr<FileSniffer> sn;
                 simdisk::read_view = &view;
@@ -217,6 +217,8 @@ struct DiskEngine : Engine {
                     sn->sniff_loop([&](Packet& pk) -> bool { ++loop_calls; take(*pk.pdu(), pk.timestamp());
                         if (throwat && loop_calls == throwat) { if (throwkind) throw malformed_packet(); else throw pdu_not_found(); }
                         if (stopat && loop_calls == stopat) return false; return true; }, maxpk);
+                    // the documentation promises that the same sniffer continues where the loop stopped: read the rest
+                    if (k.num("cont") && (maxpk || stopat)) { continued = true; for (;;) { Packet pk(sn->next_packet()); if (!pk.pdu()) break; take(*pk.pdu(), pk.timestamp()); if (got.size() > recs.size() + 5) break; } }
                 }
                 else { for (auto it = sn->begin(); it != sn->end(); ++it) { take(*it->pdu(), it->timestamp()); if (got.size() > recs.size() + 5) break; } }
             }
@@ -235,7 +237,8 @@ struct DiskEngine : Engine {
             }
             // expected list under the read mode
             std::vector<Got> want = expect;
-            if (how == 1) { size_t cut = want.size(); if (maxpk && maxpk < cut) cut = maxpk; if (stopat && stopat == throwat) stopat = 0; /* the functor throws before it can return false */ if (stopat && (size_t)stopat < cut) cut = (size_t)stopat; want.resize(cut); if (throwat && (size_t)throwat <= cut) st.inc("probe.functor_threw_in_sniff_loop"); if (stopat && (size_t)stopat == cut) st.inc("probe.functor_stopped_loop"); if (maxpk && maxpk == cut) st.inc("probe.max_packets_reached"); }
+            if (how == 1 && continued) { st.inc("probe.read_continued_after_bounded_loop"); }
+            else if (how == 1) { size_t cut = want.size(); if (maxpk && maxpk < cut) cut = maxpk; if (stopat && stopat == throwat) stopat = 0; /* the functor throws before it can return false */ if (stopat && (size_t)stopat < cut) cut = (size_t)stopat; want.resize(cut); if (throwat && (size_t)throwat <= cut) st.inc("probe.functor_threw_in_sniff_loop"); if (stopat && (size_t)stopat == cut) st.inc("probe.functor_stopped_loop"); if (maxpk && maxpk == cut) st.inc("probe.max_packets_reached"); }
             if (structure_damaged) {
                 // safety only + records wholly before the first damaged byte come back unchanged
                 size_t safe = 0; for (auto& r : recs) { if (first_damage != SIZE_MAX && r.hdr_off + 16 + r.caplen <= first_damage) ++safe; else break; }
